@@ -1,5 +1,6 @@
 from __future__ import annotations
 
+import builtins
 import io
 import json
 import operator
@@ -441,6 +442,13 @@ def object_get_state(obj: Any, save_context: SaveContext) -> dict[str, Any]:
     # (constructor, (constructor_args,))
     # If the constructor is the same as the object's type, then we consider it
     # safe to call it with the specified arguments.
+
+    # Interpreter-internal types (method-wrapper, mappingproxy, ...) say they
+    # live in builtins but cannot be found there again: an archive naming them
+    # could never be loaded.
+    cls = type(obj)
+    if cls.__module__ == "builtins" and getattr(builtins, cls.__name__, None) is not cls:
+        raise UnsupportedTypeException(obj)
 
     reduce_output = obj.__reduce__()
     if any(item is not None for item in reduce_output[3:]):
